@@ -36,13 +36,14 @@ ALPHABET = (
        ("save_torn_load",), ("generate", 0), ("generate", 1)]
     + [("sys_propagate", i) for i in range(len(SYSPROPS))]
     + [("set_corr_config", 0), ("set_corr_config", 1)]
+    + [("load_inplace_other", 0), ("load_inplace_other", 1)]
 )
 WEIGHTS = {"set_period": 1.2, "correct": 1.0, "set_opts": 0.5, "correct_default": 1.0, "read": 1.0, "propagate": 1.0, "trajectory": 3.0,
-           "bad_period": 1.0, "set_amp": 0.7, "save_load": 0.25, "load_inplace": 0.15, "save_fault": 0.5, "save_torn_load": 0.3, "generate": 0.35, "sys_propagate": 0.9, "set_corr_config": 0.8}
+           "bad_period": 1.0, "set_amp": 0.7, "save_load": 0.25, "load_inplace": 0.15, "save_fault": 0.5, "save_torn_load": 0.3, "generate": 0.35, "sys_propagate": 0.9, "set_corr_config": 0.8, "load_inplace_other": 0.4}
 REDUCED = [("set_period", "x1.1"), ("set_period", "none"), ("correct", 0, 0), ("correct", 1, 1), ("set_opts", 1), ("set_corr_config", 1), ("correct_default",),
            ("read", "period"), ("read", "monodromy"), ("read", "stability_indices"), ("propagate", 0), ("propagate", 1), ("propagate", 3), ("trajectory",),
            ("bad_period",), ("save_fault", "enospc")]
-MUTATORS = {"set_period", "correct", "set_opts", "correct_default", "set_amp", "save_load", "load_inplace", "set_corr_config"}
+MUTATORS = {"set_period", "correct", "set_opts", "correct_default", "set_amp", "save_load", "load_inplace", "set_corr_config", "load_inplace_other"}
 INTEGRATING = {"correct", "correct_default", "propagate", "generate", "sys_propagate"}
 INTEGRATING_READS = {"monodromy", "stability_indices", "eigenvalues", "is_stable"}
 
@@ -276,11 +277,39 @@ def step(ctx, U, ob, j, op, hist):
             ctx.probe("skipped_integration_after_reload")
             return
         ob["post_reload_integrations"] += 1
+    if ob.get("no_more_persistence") and k in ("save_load", "load_inplace", "save_torn_load", "load_inplace_other", "save_fault"):
+        return   # after a foreign file was loaded in place the history continues with reads and computations only
     hist.append(entry)
     if ctx.probes.get("_mutated", 0) and k in ("read", "propagate", "trajectory", "correct", "correct_default"):
         ctx.nontrivial = True
         ctx.probe("reads_after_mutation")
     # ---------------- persistence and fault operations act on the real object only
+    if k == "load_inplace_other":
+        # a file written by ANOTHER, fresh orbit of the same family (variant 0: analytic guess, no period; variant 1: converged state
+        # with its period) is loaded into the long-lived object: afterwards the object is, logically, that other orbit
+        src_model = new_model(model["spec"], corrected=bool(op[1]))
+        path = base.tmp_path(f"orbit_other_{len(hist)}_{j}.pkl")
+        out = attempt(lambda: build(src_model, ob["lp"]).save(path))
+        if out.failed:
+            raise Violation("C20/orbit/save-raised", f"save of a fresh orbit raised {out.kind()}: {out.exc} | history: {hist}")
+        out = attempt(lambda: real.load_inplace(path))
+        try:
+            os.remove(path)
+        except OSError:
+            pass
+        if out.failed:
+            raise Violation("C20/orbit/load_inplace-raised", f"load_inplace raised {out.kind()}: {out.exc} | history: {hist}")
+        rb = readback(real)
+        for f in ("x", "T"):
+            if not eq(rb[f], src_model[f]):
+                raise Violation(f"C20/orbit/load_inplace-{f}", f"after load_inplace of another orbit's file: {f} = {brief(rb[f])}, the file's orbit had {brief(src_model[f])} | history: {hist}")
+        ob["model"] = dict(src_model)
+        ob["reloaded"], ob["no_more_persistence"] = True, True
+        ob["restored"] = {"T": rb["T"], "traj": None, "earlier_traj": []}
+        log.add("op", entry, "ok")
+        ctx.probes["_mutated"] = 1
+        ctx.probe("load_inplace_other")
+        return
     if k in ("save_load", "load_inplace"):
         path = base.tmp_path(f"orbit_{len(hist)}_{j}.pkl")
         out = attempt(lambda: real.save(path))
@@ -483,6 +512,10 @@ CORE3 = [("set_period", "x1.1"), ("correct", 0, 0), ("read", "monodromy"), ("rea
 CORE3B = [("correct", 1, 1), ("correct", 0, 0), ("set_corr_config", 1), ("set_opts", 1), ("correct_default",), ("read", "period")]
 
 
+LOAD3 = ([("propagate", 0), ("read", "stability_indices")], [("load_inplace_other", 0), ("load_inplace_other", 1)],
+         [("trajectory",), ("read", "period"), ("read", "stability_indices"), ("read", "eigenvalues")])
+
+
 def enumeration(max_len: int):
     """Choice sequences for every history of length <= max_len over REDUCED on one EM L1 halo orbit; when max_len < 3,
     additionally every history of length exactly 3 over the small CORE3 alphabet (compute -> mutate -> re-read is the
@@ -492,6 +525,10 @@ def enumeration(max_len: int):
         core = [ALPHABET.index(op) + 1 for op in CORE3]
         for seq in itertools.product(core, repeat=3):
             yield [0, 0, 0, 1] + list(seq) + [0]     # on an orbit that starts corrected, with its period set
+        for a in LOAD3[0]:
+            for b in LOAD3[1]:
+                for c in LOAD3[2]:
+                    yield [0, 0, 0, 1] + [ALPHABET.index(o) + 1 for o in (a, b, c)] + [0]   # compute; load another orbit's file in place; re-read
         coreb = [ALPHABET.index(op) + 1 for op in CORE3B]
         for seq in itertools.product(coreb, repeat=3):
             yield [0, 0, 1, 0] + list(seq) + [0]     # on a Lyapunov orbit that starts at the analytic guess: corrections have real work to do
